@@ -231,8 +231,11 @@ func (m *lifecycleReconcilerStorageMiddleware) expireObjectDeleteMarkers(ctx con
 			if version.IsLatest && version.IsDeleteMarker {
 				versionCopy := *version
 				candidate.currentDeleteMarker = &versionCopy
-			}
-			if !version.IsDeleteMarker {
+			} else {
+				// Any other version of the key (object version or noncurrent
+				// delete marker) keeps the current delete marker from being an
+				// expired object delete marker: S3 only removes a delete marker
+				// with zero noncurrent versions.
 				candidate.hasObjectVersion = true
 			}
 		}
